@@ -6,7 +6,7 @@ JUDGED = {"k", "returned", "votes", "final_returned", "raised", "extra_event", "
 
 
 def main(tier):
-    n = 600 if tier == "quick" else 12000
+    n = 2500 if tier == "quick" else 20000
     return runfam.run(PID, tier, groups=("core",), judged=JUDGED, ncases=n, methods=("collect", "next") if tier != "quick" else ("collect",))
 
 
